@@ -1196,3 +1196,52 @@ func ruleStoredSize(rule string) ruleFn {
 		c.Floor(rule, 3)
 	}
 }
+
+// ---------------------------------------------------------------------------
+// *-COUNTFWD: the fan-out's count is the replicator's count
+// ---------------------------------------------------------------------------
+
+func ruleCountForward(rule string) ruleFn {
+	return func(c *Ctx) {
+		c.Doc(rule, "replicator.WriteAt / Sync / Unmap return, on every path after the fan-out, the count the fan-out returned (len(p) / 0 with a majority, 0 / -1 without): Controller.WriteAt / Sync / Unmap tell 'failed replicas isolated, operation good' from 'majority lost' by that count alone - a constant in its place turns a failing minority into an I/O error or a lost majority into success")
+		n := 0
+		for _, m := range []string{"WriteAt", "Sync", "Unmap"} {
+			fn := c.Anchor(rule, fRepl+m)
+			if fn == nil {
+				continue
+			}
+			R := NewRenderer(fn)
+			var call ssa.Instruction
+			eachInstr(fn, func(in ssa.Instruction) {
+				cl, ok := in.(*ssa.Call)
+				if !ok {
+					return
+				}
+				nm := CalleeName(cl)
+				if (cl.Call.IsInvoke() && cl.Call.Method.Name() == m) || strings.HasSuffix(nm, ")."+m) {
+					if strings.Contains(callRender(R, in), "$0.writer") {
+						call = in
+					}
+				}
+			})
+			if call == nil {
+				c.Undecided(rule, FnName(fn)+" | fan-out call", c.P.Pos(fn.Pos()), "call of r.writer."+m+" not found")
+				continue
+			}
+			want := callRender(R, call) + "#0"
+			for _, w := range reachableFrom(call, func(in ssa.Instruction) bool { _, ok := in.(*ssa.Return); return ok }) {
+				ret := w.Site.(*ssa.Return)
+				n++
+				key := fmt.Sprintf("%s | count of the fan-out handed up", FnName(fn))
+				if got := R.V(ret.Results[0]); got == want {
+					c.OK(rule, key, c.P.InstrPos(ret), got, false)
+				} else {
+					c.Bad(rule, key, c.P.InstrPos(ret), "returns "+got+" as the count, not the fan-out's "+want, nil)
+				}
+			}
+		}
+		if n < 6 {
+			c.Undecided(rule, "vacuity-floor", "", fmt.Sprintf("only %d returns after a fan-out found", n))
+		}
+	}
+}
